@@ -73,7 +73,8 @@ class SDM():
 
     def calc_sdm(self) -> list:
         t1 = time.perf_counter()
-        all_atoms = self.shx.atoms.all_atoms
+        # Q-peaks are no atoms: they neither bond nor belong to a molecule.
+        all_atoms = [at for at in self.shx.atoms.all_atoms if not at.qpeak]
         self.bondlist.clear()
         for i, at1 in enumerate(all_atoms):
             prime_array = [Array(at1.frac_coords) * symop.matrix + symop.trans for symop in self.shx.symmcards]
